@@ -1,4 +1,4 @@
-import Rangers.Proofs.JournalSteps3
+import Rangers.Proofs.JournalSteps4
 import Rangers.Proofs.JournalRoot
 /-!
 # Property C04 — reverting to a snapshot restores the account state exactly
@@ -26,6 +26,7 @@ def Covered : Op → Bool
   | .setNonce .. | .incNonce .. | .setData .. | .create .. => true
   | .addBal .. | .subBal .. | .setBal .. | .transfer .. | .qBal .. => true
   | .addFT .. | .subFT .. | .setFT .. | .qFT .. => true
+  | .setStorage .. | .qAllRefund .. | .addBinding .. => true
   | .addRefund .. | .subRefund .. | .alAddr .. | .tset .. => true
   | .snapshot | .revert .. => true
   | .qExist .. | .qEmpty .. | .qNonce .. | .qData .. | .qSuicided .. | .qCode .. | .qCodeSize .. | .qCodeHash .. => true
@@ -93,6 +94,9 @@ theorem step_revAt (c : Cfg) (hp : c.p002 = true) (s : ADB) (op : Op) (hc : Step
   | subFT a k n => exact revAt_subFT c s a k n
   | setFT a k n => exact revAt_setFT c s a k n
   | qFT a k => exact revAt_getFT c s a k
+  | setStorage a kvs => exact revAt_setStorage c s a kvs
+  | qAllRefund a => exact revAt_getAllRefund c s a
+  | addBinding b ct p d => exact revAt_addBinding c s b ct p d
   | addRefund g => exact revAt_addRefund c s g
   | subRefund g => exact revAt_subRefund c s g
   | alAddr a => exact revAt_alAddr c s a
@@ -211,7 +215,8 @@ def demoOps : List Op :=
 example : AllCovered demoOps := by decide
 example : RunOk (StepOk c0) c0 (snapshot (setNonce ADB.empty A1 1)).1
     (demoOps ++ [.setCode A1 [0x60] (toHash [9]), .addFT A1 [0x66, 0x3a, 0x78] 0, .suicide A1, .qFT A1 [0x66, 0x3a, 0x78],
-       .addLog A1 [] [1], .alSlot A1 (toHash [1]), .alSlot A1 (toHash [2]), .qCode A1]) := by
+       .addLog A1 [] [1], .alSlot A1 (toHash [1]), .alSlot A1 (toHash [2]), .qCode A1,
+       .setStorage A1 [(toHash [1], toHash [2]), (toHash [3], toHash [4])], .qAllRefund A1, .addBinding [0xb1] A1 3 18]) := by
   decide
 example : (revert c0 (run c0 (snapshot (setNonce ADB.empty A1 1)).1 demoOps) 0).crashed = false := by decide
 example : obs c0 (run c0 (snapshot (setNonce ADB.empty A1 1)).1 demoOps) A1 [0x6b] [] [1]
